@@ -4,6 +4,7 @@ import (
 	"fmt"
 	"go/constant"
 	"go/token"
+	"os"
 	"go/types"
 	"sort"
 	"strings"
@@ -521,6 +522,9 @@ func (in *Interp) callFunction(fn *ssa.Function, args []Value, env []Value) Valu
 			panic(abort("no body: " + fn.String()))
 		}
 	}
+	if os.Getenv("GOSYM_DBGFN") != "" && fn.Name() == os.Getenv("GOSYM_DBGFN") && in.funcsSeen[fn] == 0 {
+		fn.WriteTo(os.Stderr)
+	}
 	in.depth++
 	if in.depth > maxDepth {
 		panic(abort("call depth exceeded in " + fn.String()))
@@ -792,7 +796,7 @@ func (in *Interp) exec(fr *frame, instr ssa.Instruction) {
 				panic(goPanic{msg: "runtime error: index out of range"})
 			}
 			in.onStore(&se.elems[i])
-			se.elems[i] = copyVal(in.get(fr, x.Val))
+			assignInPlace(&se.elems[i], copyVal(in.get(fr, x.Val)))
 			return
 		}
 		p, ok := in.get(fr, x.Addr).(*Value)
@@ -803,7 +807,7 @@ func (in *Interp) exec(fr *frame, instr ssa.Instruction) {
 			panic(goPanic{msg: "runtime error: invalid memory address or nil pointer dereference"})
 		}
 		in.onStore(p)
-		*p = copyVal(in.get(fr, x.Val))
+		assignInPlace(p, copyVal(in.get(fr, x.Val)))
 	case *ssa.TypeAssert:
 		fr.env[x] = in.typeAssert(x, in.get(fr, x.X))
 	case *ssa.Go:
